@@ -351,6 +351,10 @@ pub fn alphabet() -> Vec<Sym> {
         ..Default::default()
     });
     v.push(s("AddCluster(c2,udp)", RequestType::AddCluster(c2)));
+    // same id, other behaviour: an upsert must take effect everywhere
+    let mut c1redir = cluster("c1");
+    c1redir.https_redirect = true;
+    v.push(s("AddCluster(c1,redirect)", RequestType::AddCluster(c1redir)));
     let mut c1bad = cluster("c1");
     c1bad.https_redirect = true;
     c1bad.health_check = Some(health("no-slash", 0));
@@ -404,6 +408,11 @@ pub fn alphabet() -> Vec<Sym> {
     v.push(s("AddHttpFrontend(f1b same key)", RequestType::AddHttpFrontend(f1b.clone())));
     v.push(s("AddHttpFrontend(f2 rich)", RequestType::AddHttpFrontend(f2.clone())));
     v.push(s("AddHttpFrontend(f3 deny)", RequestType::AddHttpFrontend(f3.clone())));
+    // values sitting on serialisation defaults: an empty path value with a non-default kind
+    let f4 = http_front(Some("c1"), a4(), "e.io", PathRule::equals(""));
+    let f5 = http_front(Some("c1"), a4(), "r.io", PathRule::regex(""));
+    v.push(s("AddHttpFrontend(f4 EQUALS '')", RequestType::AddHttpFrontend(f4)));
+    v.push(s("AddHttpFrontend(f5 REGEX '')", RequestType::AddHttpFrontend(f5)));
     v.push(bad("AddHttpFrontend(position=9)", RequestType::AddHttpFrontend(f_bad)));
     v.push(bad("AddHttpFrontend(path.kind=7)", RequestType::AddHttpFrontend(f_badkind)));
     v.push(s("RemoveHttpFrontend(f1)", RequestType::RemoveHttpFrontend(f1)));
@@ -555,6 +564,21 @@ pub fn alphabet() -> Vec<Sym> {
             old_fingerprint: fp(CERT1),
             new_expired_at: None,
         }),
+    ));
+    // well-formed PEM that is not a certificate (the key file passed by mistake):
+    // passes the first validation step, fails a later one
+    v.push(bad(
+        "ReplaceCertificate(a6,fp1->key-as-cert)",
+        RequestType::ReplaceCertificate(ReplaceCertificate {
+            address: a6(),
+            new_certificate: cert(KEY1, KEY1, &[]),
+            old_fingerprint: fp(CERT1),
+            new_expired_at: None,
+        }),
+    ));
+    v.push(bad(
+        "AddCertificate(a6,key-as-cert)",
+        RequestType::AddCertificate(add(a6(), cert(KEY2, KEY2, &[]), None)),
     ));
     v.push(bad(
         "ReplaceCertificate(a4,fp1->cert2)",
